@@ -118,6 +118,11 @@ def run(ctx):
         else:
             b = None
         name, code, fn = rng.choice(CMP)
+        if rng.random() < 0.4:
+            # the ufunc itself, in the operand order written (no reflected operator in between): np.less(number, phase) reaches the
+            # Phase as the SECOND input
+            fn = {'eq': np.equal, 'ne': np.not_equal, 'lt': np.less, 'le': np.less_equal, 'gt': np.greater, 'ge': np.greater_equal}[name]
+            ctx.count('cmp_through_ufunc')
         if b is None:
             x = rng.choice([float(bc), float(bc) + 0.5, 0.0, float(bc + 1)])
             xk = rng.choice([x, np.float64(x), x * u.cycle])
